@@ -168,6 +168,37 @@ static void subsets(const std::vector<uint64_t> &K, size_t maxsz, size_t minsz, 
 	rec(0);
 }
 
+// Trivial value types inserted without constructor arguments: find_or_insert(k) / insert(k) must yield a
+// value-initialised T also when the slot held another value before it was erased (erase only clears the presence bit).
+// Every subset of <= 3 keys of the quick alphabet, every key of it as the victim, both entry points.
+struct PodVal { uint64_t a; int b; };
+template<class T, class Get> static void default_insert_cases(InstResult &r, const char *what, const std::vector<std::vector<uint64_t>> &subs, Get get) {
+	using TT = frg::rcu_radixtree<T, BumpAlloc>;
+	for(auto &s : subs) for(size_t vi = 0; vi < s.size(); vi++) for(int entry = 0; entry < 2; entry++) {
+		r.evaluations++; r.distinct++;
+		world_reset(); arena_top = 0;
+		{
+			TT t{BumpAlloc{}};
+			for(size_t i = 0; i < s.size(); i++) { T *p = t.insert(s[i]); *p = T{}; memset((void *)p, 0x5c, sizeof(T)); }   // non-zero contents written through the stable address
+			t.erase(s[vi]);
+			if(t.find(s[vi])) { r.add_violation({"C09", std::string("radix:default-insert:") + what, "find() returns an erased key"}, what); return; }
+			T *p = nullptr;
+			if(entry == 0) p = t.insert(s[vi]); else { auto pr = t.find_or_insert(s[vi]); p = pr.template get<0>(); if(!pr.template get<1>()) { r.add_violation({"C09", std::string("radix:default-insert:") + what, "find_or_insert of an erased key did not report an insertion"}, what); return; } }
+			if(!p || p != t.find(s[vi]) || get(*p) != 0) { char b[96]; snprintf(b, sizeof b, "key %llx re-inserted without arguments holds %llx instead of a value-initialised %s", (unsigned long long)s[vi], (unsigned long long)(p ? get(*p) : 0), what); r.add_violation({"C09", std::string("radix:default-insert:") + what, b}, what); return; }
+		}
+	}
+}
+static InstResult default_insert() {
+	InstResult r; r.name = "radix-default-insert-trivial"; r.complete = true;
+	std::vector<std::vector<uint64_t>> subs; subsets(alphabet(false), 2, 0, subs);
+	default_insert_cases<uint64_t>(r, "uint64_t", subs, [](uint64_t &x) { return x; });
+	default_insert_cases<PodVal>(r, "aggregate", subs, [](PodVal &x) { return x.a | (uint64_t)x.b; });
+	pending().reset();
+	r.samples.push_back("rcu_radixtree<uint64_t|aggregate>: insert(k)/find_or_insert(k) without arguments after insert, overwrite, erase - for every subset of <= 2 keys, every victim");
+	r.states = r.distinct; r.transitions = r.evaluations;
+	return r;
+}
+
 static std::vector<Instance> instances(const std::string &tier) {
 	bool th = tier == "thorough";
 	std::vector<std::vector<uint64_t>> subs;
@@ -201,6 +232,9 @@ static std::vector<Instance> instances(const std::string &tier) {
 		inst.replay = [](const std::string &) { return 3; };
 		v.push_back(inst);
 	}
+	{ Instance e; e.name = "radix-default-insert-trivial"; e.run = [](const std::vector<CrashInfo> &) { return default_insert(); };
+	  e.replay = [](const std::string &) { InstResult r = default_insert(); for(auto &x : r.violations) printf("REPLAY-VIOLATION property=%s sig=%s: %s\n", x.prop.c_str(), x.sig.c_str(), x.msg.c_str()); return (int)r.violations.size(); };
+	  v.push_back(e); }
 	return v;
 }
 int main(int argc, char **argv) {
